@@ -135,13 +135,15 @@ def task_interaction(pr, repo):
                 keys = m.attrs['ordered_keys']
                 d = m.attrs['dictionary']
                 gv = repo.func(IMX + '.get_value')
+                probes = keys + ['never'] + [x.lower() for x in keys[:2]] + [x.capitalize() for x in keys[:1]]
                 sym = all(ex.call_function(gv, [a, b], self_obj=m) == ex.call_function(gv, [b, a], self_obj=m)
-                          for a in keys + ['never'] for b in keys + ['never'])
+                          for a in probes for b in probes)
+                exact = all(ex.call_function(gv, [x.lower(), keys[0]], self_obj=m) is None for x in keys[:2] if x.lower() != x)
                 complete = all(a in d and b in d[a] for a in keys for b in keys)
                 newrow = all(d[new][g] == 'n%d' % j for j, g in enumerate(keys) if not (dup and g == new and j < k))
                 ctx.oblige('IM[%d rows%s]: after add() the table is symmetric and defined for every pair of listed types; '
                            'the new row holds the given values' % (k, ', re-listed name' if dup else ''),
-                           sym and complete and newrow)
+                           sym and complete and newrow and exact)
             pr.explore(ex, thunk, 'InteractionMatrix.add k=%d' % k)
 
     def t_len(ex, ctx):
@@ -223,6 +225,9 @@ def ground_shipped(pr, repo):
         missing = [u for u in have if im.get_value(t, u) is None or im.get_value(t, u) != im.get_value(u, t)]
         pr.add(Ground('GR(a): interaction type of %r defined and symmetric with each of the %d types that have a row'
                       % (t, len(have)), not missing, detail='undefined/asymmetric with: %s' % missing[:40]))
+    asym = [(t, u) for t in side for u in side if im.get_value(t, u) != im.get_value(u, t)]
+    pr.add(Ground('GR(a): interaction-type look-up symmetric for all %d x %d pairs of creatable group types (with or without a row)'
+                  % (len(side), len(side)), not asym, detail=str(asym[:6])))
     for w in p.write_out_order:
         ok = w in p.model_pkas
         pr.add(Ground('GR(b): written type %r has a model pKa' % w, ok, detail='' if ok else 'no model_pkas row',
@@ -294,9 +299,11 @@ def bounded(pr):
             extra.append('desolv_cutoff %s\n' % rng.choice((17.0, 21.0)))
         pos = rng.choice(('end', 'shuffle'))
         lines += extra
-        fd, path = tempfile.mkstemp(suffix='.cfg')
-        os.write(fd, ''.join(lines).encode())
-        os.close(fd)
+        if k == 0:
+            fd, path = tempfile.mkstemp(suffix='.cfg')
+            os.close(fd)
+        # the SAME path is rewritten with other content each time (a regenerated custom parameter file)
+        open(path, 'w').write(''.join(lines))
         try:
             p = read_parameter_file(path, Parameters())
             p2 = Parameters()
@@ -312,13 +319,20 @@ def bounded(pr):
                                                                        p.sidechain_cutoffs.get_value(b, a)))
             if p.sidechain_cutoffs.get_value('never', 'COO') != p.sidechain_cutoffs.default:
                 bad.append('unspecified pair does not fall back to the default')
+            dl = [l.split() for l in lines if l.startswith('sidechain_cutoffs default')]
+            if dl and tuple(float(x) for x in dl[-1][2:4]) != tuple(p.sidechain_cutoffs.default):
+                bad.append('default %r is not the one declared last in this file (%r)' % (p.sidechain_cutoffs.default, dl[-1][2:4]))
+            dc = [l.split() for l in lines if l.startswith('desolv_cutoff ')]
+            if dc and float(dc[-1][1]) != p.desolv_cutoff:
+                bad.append('desolv_cutoff %r is not the value of this file (%r)' % (p.desolv_cutoff, dc[-1][1]))
             for nm in ('desolv_cutoff', 'buried_cutoff', 'coulomb_cutoff1', 'coulomb_cutoff2'):
                 if abs(getattr(p, nm + '_squared') - getattr(p, nm) ** 2) > 1e-9 * getattr(p, nm) ** 2:
                     bad.append('%s_squared %r != %s**2 %r' % (nm, getattr(p, nm + '_squared'), nm, getattr(p, nm) ** 2))
             if bad and len(viol) < 3:
                 viol.append({'what': 'parameter file with extra lines %r: %s' % (extra, bad[:2]), 'replay': None})
         finally:
-            os.unlink(path)
+            pass
+    os.unlink(path)
     pr.bounded.append({'name': 'C18-monitor: generated parameter files through the real parser', 'evaluations': ev,
                        'distinct_nontrivial': len(classes), 'bound': '%d files' % n,
                        'rule': 'shipped file + 1-4 extra/duplicate pair rows, optional default row, scalar overrides; '
